@@ -124,7 +124,7 @@ def umn_ref(spec: dict, extstrip: str, base: str) -> typing.Tuple[typing.List[st
                 continue  # never displayed, never transmitted
             out.append(e)
     out = [e for e in out if not any(e is entries.get(h) for h in hidden)]
-    pos = sorted((e for e in out if e.num > 0), key=lambda e: e.num)
+    pos = sorted((e for e in out if e.num > 0), key=lambda e: (e.num, e.name))   # equal numbers: by title
     zero = sorted((e for e in out if e.num == 0), key=lambda e: e.name)
     neg = sorted((e for e in out if e.num < 0), key=lambda e: e.num)
     header = (spec.get("dirabstract") or "").split("\n") if spec.get("dirabstract") else []
@@ -171,6 +171,10 @@ def gen_case(rng, idx: int):
         spec["dirabstract"] = rng.choice(["Header abstract", "Header line 1\nHeader line 2"])
         t.file(".abstract", spec["dirabstract"] + "\n")
     numbers = rng.sample([1, 2, 3, 4, 5, 7, 10, 25, -1, -2, -5], 8)
+    if rng.random() < 0.5:
+        # several entries sharing one positive number (they are then ordered by title)
+        numbers += [numbers[0] if numbers[0] > 0 else 3] * 2 + [3, 3]
+        rng.shuffle(numbers)
     existing = list(spec["files"]) + list(spec["dirs"])
     overridden = set()
     for fname in rng.sample([".Links", ".names", ".zlinks", ".alinks"], rng.randrange(0, 4)):
@@ -206,6 +210,9 @@ def gen_case(rng, idx: int):
                     path, host, port = "/local/" + word(), "+", "+"
                 elif kind < 0.75:
                     path, host, port = "/URL:http://www.example.org/" + word(), "+", "+"
+                elif kind < 0.8:
+                    # "a plus in either of these two fields": this host on another port / another host on this port
+                    path, host, port = rng.choice([("/mixed/" + word(), "+", "7070"), ("/mixed/" + word(), "mix.example.org", "+")])
                 elif kind < 0.9:
                     path, host, port = word().lower(), "finger.example.org", "79"   # relative path on a remote host
                 else:
